@@ -58,11 +58,11 @@ type Node struct {
 	S    *syncer.Syncer
 	UID  gateway.UniqueID
 
-	l        net.Listener
-	runDone  chan error
-	closed   atomic.Bool
-	jmu      sync.Mutex
-	jrng     *rand.Rand
+	l          net.Listener
+	runDone    chan error
+	closed     atomic.Bool
+	jmu        sync.Mutex
+	jrng       *rand.Rand
 	Reconnects atomic.Int64
 }
 
